@@ -39,6 +39,14 @@ func exactBuf(b []byte) []byte {
 
 func c11Direct(c *Ctx) {
 	r := c.R
+	if c.Filter == "" && r.Shard == 0 && !isolatedChild {
+		// calibration of the sub-process limit: a frame whose declared count is merely large
+		// (2^20 cells) must be survivable, or a crash under the limit says nothing
+		if res := RunIsolated("C11", "get|cellcount=1048576|isolated", 2<<30); res != "ok" {
+			r.Stats.HarnessErrors = append(r.Stats.HarnessErrors, "isolation limit too small for the worker itself: "+res)
+			return
+		}
+	}
 	var n, nt int64
 	outc := map[string]int64{}
 	idx := 0
